@@ -92,14 +92,16 @@ fn expected_outcome(def: &Def, leaf: usize, h: u64, text: &[u8]) -> Outcome {
             CbRet::Bool => if h % 2 == 0 { Outcome::Emit { v: own, payload: 0 } } else { Outcome::DefaultError },
             CbRet::Val => Outcome::Emit { v: own, payload: h },
             CbRet::OptVal => if h % 3 == 0 { Outcome::DefaultError } else { Outcome::Emit { v: own, payload: h } },
-            CbRet::ResVal => if h % 3 == 0 { Outcome::Error(err) } else { Outcome::Emit { v: own, payload: h } },
+            // an explicit `Err(Default::default())` stays that value, also when an error callback is configured
+            CbRet::ResVal => if h % 3 == 0 { Outcome::Error(if h % 7 == 0 { ERR_DEFAULT } else { err }) } else { Outcome::Emit { v: own, payload: h } },
             CbRet::SkipAlways | CbRet::SkSkip | CbRet::SkUnit => Outcome::Skip,
-            CbRet::ResSkip | CbRet::SkResSkip | CbRet::SkResUnit => if h % 2 == 0 { Outcome::Error(err) } else { Outcome::Skip },
+            CbRet::ResSkip | CbRet::SkResSkip => if h % 2 == 0 { Outcome::Error(if h % 7 == 0 { ERR_DEFAULT } else { err }) } else { Outcome::Skip },
+            CbRet::SkResUnit => if h % 2 == 0 { Outcome::Error(err) } else { Outcome::Skip },
             CbRet::FilterVal => if h % 2 == 0 { Outcome::Emit { v: own, payload: h } } else { Outcome::Skip },
             CbRet::FilterResVal => match h % 3 { 0 => Outcome::Emit { v: own, payload: h }, 1 => Outcome::Skip, _ => Outcome::Error(err) },
             CbRet::FilterUnit => if h % 2 == 0 { Outcome::Emit { v: own, payload: 0 } } else { Outcome::Skip },
             CbRet::Tok => Outcome::Emit { v: cb.target as u32, payload: 0 },
-            CbRet::ResTok => if h % 3 == 0 { Outcome::Error(err) } else { Outcome::Emit { v: cb.target as u32, payload: 0 } },
+            CbRet::ResTok => if h % 3 == 0 { Outcome::Error(if h % 7 == 0 { ERR_DEFAULT } else { err }) } else { Outcome::Emit { v: cb.target as u32, payload: 0 } },
             CbRet::FilterTok => if h % 2 == 0 { Outcome::Emit { v: cb.target as u32, payload: 0 } } else { Outcome::Skip },
             CbRet::FilterResTok => match h % 3 { 0 => Outcome::Emit { v: cb.target as u32, payload: 0 }, 1 => Outcome::Skip, _ => Outcome::Error(err) },
         },
